@@ -9,8 +9,8 @@ import (
 // H04_Fragments: arbitrary link fragments into ParseFragment and an incoming transmission.
 func H04_Fragments() {
 	var t *IncomingTransmission
-	for i := 0; i < 3; i++ {
-		n := verif.Size(nm("n", i), 0, 4)
+	for i := 0; i < verif.Param("frags", 2); i++ {
+		n := verif.Size(nm("n", i), 0, 3)
 		f, err := ParseFragment(verif.Bytes(nm("frag", i), n))
 		if err != nil {
 			continue
